@@ -24,6 +24,7 @@ type Expr struct {
 	Op     string   `json:"op,omitempty"`     // == != < <= > >=
 	Val    string   `json:"val,omitempty"`    // comparison value (tokens joined by one blank) or TRUE/FALSE
 	Strict bool     `json:"strict,omitempty"` // value(...) form
+	Inl    []Inline `json:"inl,omitempty"`    // auto: inline text / moves() arguments (@inlN tokens)
 }
 
 // Arm is one if / elif arm.
@@ -59,6 +60,18 @@ type Stmt struct {
 	V     string   `json:"v,omitempty"`   // switched var (auto: result var)
 	Pre   []string `json:"pre,omitempty"` // auto: command tokens
 	Cases []Case   `json:"cases,omitempty"`
+	// inline data of a cmd (tokens "@inl<k>" in Toks refer to Inl[k])
+	Inl    []Inline `json:"inl,omitempty"`
+	PreInl []Inline `json:"preinl,omitempty"`
+	// poryswitch statement: V is the switch name
+	PCases []PCase `json:"pcases,omitempty"`
+}
+
+// PCase is one case of a poryswitch statement.
+type PCase struct {
+	Val   string `json:"val"`
+	Brace bool   `json:"brace"`
+	Body  []Stmt `json:"body"`
 }
 
 // Script is one script statement.
@@ -84,79 +97,10 @@ type Style struct {
 	EmptyParen bool // write "cmd()" for argument-less commands sometimes
 }
 
-type srcWriter struct {
-	sb    strings.Builder
-	st    Style
-	depth int
-}
-
-func (w *srcWriter) nl() {
-	switch w.st.Layout {
-	case 1:
-		w.sb.WriteByte(' ')
-	case 2:
-		switch w.st.R.Intn(5) {
-		case 0:
-			w.sb.WriteByte(' ')
-		case 1:
-			w.sb.WriteString("\n\n")
-		case 2:
-			w.sb.WriteString(" # c\n")
-		case 3:
-			w.sb.WriteString("\r\n")
-		default:
-			w.sb.WriteByte('\n')
-		}
-		w.sb.WriteString(strings.Repeat("\t", w.st.R.Intn(3)))
-	default:
-		w.sb.WriteByte('\n')
-		w.sb.WriteString(strings.Repeat("    ", w.depth))
-	}
-}
-
 func renderCmdToks(toks []string, emptyParen bool) string {
-	if len(toks) == 1 {
-		if emptyParen {
-			return toks[0] + "()"
-		}
-		return toks[0]
-	}
-	var sb strings.Builder
-	sb.WriteString(toks[0])
-	sb.WriteByte('(')
-	for i, t := range toks[1:] {
-		if t == "," {
-			sb.WriteString(", ")
-			continue
-		}
-		if i > 0 && toks[i] != "," {
-			sb.WriteByte(' ')
-		}
-		sb.WriteString(t)
-	}
-	sb.WriteByte(')')
-	return sb.String()
-}
-
-func renderLeaf(e *Expr) string {
-	var head string
-	switch e.Typ {
-	case "auto":
-		head = renderCmdToks(e.Toks, true)
-	default:
-		head = e.Typ + "(" + e.Opnd + ")"
-	}
-	switch e.Form {
-	case "bare":
-		return head
-	case "not":
-		return "!" + head
-	default:
-		if e.Strict {
-			return head + " " + e.Op + " value(" + e.Val + ")"
-		}
-		return head + " " + e.Op + " " + e.Val
-	}
+	w := &pw{}
+	w.cmdToks(toks, nil, "", emptyParen)
+	return Layout(w.ps, 1, nil)
 }
 
 // prec: 1 = or, 2 = and, 3 = unary/leaf
@@ -170,136 +114,10 @@ func exprPrec(e *Expr) int {
 	return 3
 }
 
-func renderExpr(e *Expr, st Style) string {
-	var s string
-	switch e.K {
-	case "leaf":
-		s = renderLeaf(e)
-	case "not":
-		s = "!(" + renderExpr(e.E, st) + ")"
-	case "and", "or":
-		op := " && "
-		if e.K == "or" {
-			op = " || "
-		}
-		l := renderExpr(e.L, st)
-		if exprPrec(e.L) < exprPrec(e) {
-			l = "(" + l + ")"
-		}
-		r := renderExpr(e.R, st)
-		// the tree's shape is kept: a right operand of the same or lower
-		// precedence is parenthesised
-		if exprPrec(e.R) <= exprPrec(e) {
-			r = "(" + r + ")"
-		}
-		s = l + op + r
-	}
-	if st.Parens && st.R != nil && st.R.Intn(3) == 0 {
-		s = "(" + s + ")"
-	}
-	return s
-}
-
-func (w *srcWriter) block(body []Stmt) {
-	w.sb.WriteString("{")
-	w.depth++
-	for i := range body {
-		w.nl()
-		w.stmt(&body[i])
-	}
-	w.depth--
-	w.nl()
-	w.sb.WriteString("}")
-}
-
-func (w *srcWriter) stmt(s *Stmt) {
-	switch s.K {
-	case "cmd":
-		ep := w.st.EmptyParen && w.st.R != nil && w.st.R.Intn(2) == 0
-		w.sb.WriteString(renderCmdToks(s.Toks, ep))
-	case "label":
-		if s.G {
-			w.sb.WriteString(s.Name + "(global):")
-		} else {
-			w.sb.WriteString(s.Name + ":")
-		}
-	case "if":
-		for i, a := range s.Arms {
-			if i == 0 {
-				w.sb.WriteString("if (")
-			} else {
-				w.sb.WriteString(" elif (")
-			}
-			w.sb.WriteString(renderExpr(a.Cond, w.st))
-			w.sb.WriteString(") ")
-			w.block(a.Body)
-		}
-		if s.HasElse {
-			w.sb.WriteString(" else ")
-			w.block(s.Els)
-		}
-	case "while":
-		if s.HasCond {
-			w.sb.WriteString("while (" + renderExpr(s.Cond, w.st) + ") ")
-		} else {
-			w.sb.WriteString("while ")
-		}
-		w.block(s.Body)
-	case "dowhile":
-		w.sb.WriteString("do ")
-		w.block(s.Body)
-		w.sb.WriteString(" while (" + renderExpr(s.Cond, w.st) + ")")
-	case "switch":
-		if len(s.Pre) > 0 {
-			w.sb.WriteString("switch (" + renderCmdToks(s.Pre, true) + ") {")
-		} else {
-			w.sb.WriteString("switch (var(" + s.V + ")) {")
-		}
-		w.depth++
-		for i := range s.Cases {
-			c := &s.Cases[i]
-			w.nl()
-			if c.IsDef {
-				w.sb.WriteString("default:")
-			} else {
-				w.sb.WriteString("case " + c.Val + ":")
-			}
-			w.depth++
-			for j := range c.Body {
-				w.nl()
-				w.stmt(&c.Body[j])
-			}
-			w.depth--
-		}
-		w.depth--
-		w.nl()
-		w.sb.WriteString("}")
-	case "break":
-		w.sb.WriteString("break")
-	case "continue":
-		w.sb.WriteString("continue")
-	default:
-		panic("render: unknown statement kind " + s.K)
-	}
-}
-
 // RenderProg renders a scripts-only program.
 func RenderProg(p *Prog, st Style) string {
-	w := &srcWriter{st: st}
-	for i := range p.Scripts {
-		sc := &p.Scripts[i]
-		if i > 0 {
-			w.sb.WriteString("\n\n")
-		}
-		w.sb.WriteString("script")
-		if sc.Scope != "" {
-			w.sb.WriteString("(" + sc.Scope + ")")
-		}
-		w.sb.WriteString(" " + sc.Name + " ")
-		w.block(sc.Body)
-	}
-	w.sb.WriteString("\n")
-	return w.sb.String()
+	src, _ := RenderFile(ProgFile(p), st)
+	return src
 }
 
 // ---------------------------------------------------------------------------
